@@ -162,6 +162,49 @@ package journal
 // CloseAccounts: on a closing day every accumulated income/expense/equity position with a non-zero
 // quantity or value is transferred to Equity:Equity by one balanced transaction; postings on
 // asset/liability accounts and on Equity:Equity itself are not accumulated.
+// Add: a directive lands in the day of its own date (created when missing) and is appended to the list
+// of its own kind; every other list of that day and every list of every other day is unchanged - so
+// the arrival order of directives only shows in the order within one kind of one day. An unknown
+// directive type is an error and changes nothing.
+//@ def dirOK(d model.Directive) bool := (typeIs(d, "*price.Price") ==> dyn(d, "*price.Price") != nil) && (typeIs(d, "*open.Open") ==> dyn(d, "*open.Open") != nil)
+//@     && (typeIs(d, "*transaction.Transaction") ==> dyn(d, "*transaction.Transaction") != nil) && (typeIs(d, "*assertion.Assertion") ==> dyn(d, "*assertion.Assertion") != nil)
+//@     && (typeIs(d, "*close.Close") ==> dyn(d, "*close.Close") != nil)
+//@ def known(d model.Directive) bool := typeIs(d, "*price.Price") || typeIs(d, "*open.Open") || typeIs(d, "*transaction.Transaction") || typeIs(d, "*assertion.Assertion") || typeIs(d, "*close.Close")
+//@ def dateOf(d model.Directive) time.Time := typeIs(d, "*price.Price") ? dyn(d, "*price.Price").Date : (typeIs(d, "*open.Open") ? dyn(d, "*open.Open").Date
+//@     : (typeIs(d, "*transaction.Transaction") ? dyn(d, "*transaction.Transaction").Date : (typeIs(d, "*assertion.Assertion") ? dyn(d, "*assertion.Assertion").Date : dyn(d, "*close.Close").Date)))
+//@ func (*Builder).Add
+//@   requires wfBuilder(j) && dirOK(d)
+//@   modifies j.days[*], j.min, j.max, fields(j.days[j.min]), elems(j.days[j.min].Prices), elems(j.days[j.min].Openings), elems(j.days[j.min].Transactions), elems(j.days[j.min].Assertions), elems(j.days[j.min].Closings)
+//@   ensures [C05] wfBuilder(j)
+//@   ensures [C05] @unknown: (result != nil <==> !known(d)) && (!known(d) ==> dom(j.days) == old(dom(j.days)) && vals(j.days) == old(vals(j.days)))
+//@   ensures [C05] @day: known(d) ==> (dateOf(d) in j.days) && (forall k time.Time :: {key(j.days, k)} (k in j.days) <==> (old(k in j.days) || k == dateOf(d)))
+//@        && (forall k time.Time :: {key(j.days, k)} old(k in j.days) ==> j.days[k] == old(j.days[k]))
+//@   ensures [C05] @others: forall k time.Time :: {key(j.days, k)} old(k in j.days) && (!known(d) || k != dateOf(d)) ==>
+//@        j.days[k].Prices == old(j.days[k].Prices) && j.days[k].Openings == old(j.days[k].Openings) && j.days[k].Transactions == old(j.days[k].Transactions)
+//@        && j.days[k].Assertions == old(j.days[k].Assertions) && j.days[k].Closings == old(j.days[k].Closings)
+//@   ensures [C05] @tx: typeIs(d, "*transaction.Transaction") ==> len(j.days[dateOf(d)].Transactions) == (old(dateOf(d) in j.days) ? old(len(j.days[dateOf(d)].Transactions)) : 0) + 1
+//@        && j.days[dateOf(d)].Transactions[len(j.days[dateOf(d)].Transactions) - 1] == dyn(d, "*transaction.Transaction")
+//@        && (old(dateOf(d) in j.days) ==> j.days[dateOf(d)].Prices == old(j.days[dateOf(d)].Prices) && j.days[dateOf(d)].Openings == old(j.days[dateOf(d)].Openings)
+//@            && j.days[dateOf(d)].Assertions == old(j.days[dateOf(d)].Assertions) && j.days[dateOf(d)].Closings == old(j.days[dateOf(d)].Closings))
+//@   ensures [C05] @price: typeIs(d, "*price.Price") ==> len(j.days[dateOf(d)].Prices) == (old(dateOf(d) in j.days) ? old(len(j.days[dateOf(d)].Prices)) : 0) + 1
+//@        && j.days[dateOf(d)].Prices[len(j.days[dateOf(d)].Prices) - 1] == dyn(d, "*price.Price")
+//@        && (old(dateOf(d) in j.days) ==> j.days[dateOf(d)].Openings == old(j.days[dateOf(d)].Openings) && j.days[dateOf(d)].Transactions == old(j.days[dateOf(d)].Transactions) && j.days[dateOf(d)].Assertions == old(j.days[dateOf(d)].Assertions) && j.days[dateOf(d)].Closings == old(j.days[dateOf(d)].Closings))
+//@   ensures [C05] @open: typeIs(d, "*open.Open") ==> len(j.days[dateOf(d)].Openings) == (old(dateOf(d) in j.days) ? old(len(j.days[dateOf(d)].Openings)) : 0) + 1
+//@        && j.days[dateOf(d)].Openings[len(j.days[dateOf(d)].Openings) - 1] == dyn(d, "*open.Open")
+//@        && (old(dateOf(d) in j.days) ==> j.days[dateOf(d)].Prices == old(j.days[dateOf(d)].Prices) && j.days[dateOf(d)].Transactions == old(j.days[dateOf(d)].Transactions) && j.days[dateOf(d)].Assertions == old(j.days[dateOf(d)].Assertions) && j.days[dateOf(d)].Closings == old(j.days[dateOf(d)].Closings))
+//@   ensures [C05] @assertion: typeIs(d, "*assertion.Assertion") ==> len(j.days[dateOf(d)].Assertions) == (old(dateOf(d) in j.days) ? old(len(j.days[dateOf(d)].Assertions)) : 0) + 1
+//@        && j.days[dateOf(d)].Assertions[len(j.days[dateOf(d)].Assertions) - 1] == dyn(d, "*assertion.Assertion")
+//@        && (old(dateOf(d) in j.days) ==> j.days[dateOf(d)].Prices == old(j.days[dateOf(d)].Prices) && j.days[dateOf(d)].Openings == old(j.days[dateOf(d)].Openings) && j.days[dateOf(d)].Transactions == old(j.days[dateOf(d)].Transactions) && j.days[dateOf(d)].Closings == old(j.days[dateOf(d)].Closings))
+//@   ensures [C05] @close: typeIs(d, "*close.Close") ==> len(j.days[dateOf(d)].Closings) == (old(dateOf(d) in j.days) ? old(len(j.days[dateOf(d)].Closings)) : 0) + 1
+//@        && j.days[dateOf(d)].Closings[len(j.days[dateOf(d)].Closings) - 1] == dyn(d, "*close.Close")
+//@        && (old(dateOf(d) in j.days) ==> j.days[dateOf(d)].Prices == old(j.days[dateOf(d)].Prices) && j.days[dateOf(d)].Openings == old(j.days[dateOf(d)].Openings) && j.days[dateOf(d)].Transactions == old(j.days[dateOf(d)].Transactions) && j.days[dateOf(d)].Assertions == old(j.days[dateOf(d)].Assertions))
+//@   ensures [C05] @prefix: known(d) && old(dateOf(d) in j.days) ==> (forall i int :: {j.days[dateOf(d)].Prices[i]} 0 <= i && i < old(len(j.days[dateOf(d)].Prices)) ==> j.days[dateOf(d)].Prices[i] == old(j.days[dateOf(d)].Prices[i]))
+//@        && (forall i int :: {j.days[dateOf(d)].Openings[i]} 0 <= i && i < old(len(j.days[dateOf(d)].Openings)) ==> j.days[dateOf(d)].Openings[i] == old(j.days[dateOf(d)].Openings[i]))
+//@        && (forall i int :: {j.days[dateOf(d)].Transactions[i]} 0 <= i && i < old(len(j.days[dateOf(d)].Transactions)) ==> j.days[dateOf(d)].Transactions[i] == old(j.days[dateOf(d)].Transactions[i]))
+//@        && (forall i int :: {j.days[dateOf(d)].Assertions[i]} 0 <= i && i < old(len(j.days[dateOf(d)].Assertions)) ==> j.days[dateOf(d)].Assertions[i] == old(j.days[dateOf(d)].Assertions[i]))
+//@        && (forall i int :: {j.days[dateOf(d)].Closings[i]} 0 <= i && i < old(len(j.days[dateOf(d)].Closings)) ==> j.days[dateOf(d)].Closings[i] == old(j.days[dateOf(d)].Closings[i]))
+//@   ensures [C05] @range: j.max >= old(j.max) && j.min <= old(j.min)
+//
 // Days: the days of the given dates, in the order of the dates (created where missing).
 //@ func (*Builder).Days
 //@   requires wfBuilder(j)
@@ -279,3 +322,8 @@ package journal
 //@ lemma pair_nets_zero: forall t *transaction.Transaction, p *posting.Posting, q *posting.Posting, v *commodity.Commodity :: t != nil && pair(p, q) ==>
 //@     keyOf(t, p, v).Date == keyOf(t, q, v).Date && keyOf(t, p, v).Commodity == keyOf(t, q, v).Commodity && keyOf(t, p, v).Valuation == keyOf(t, q, v).Valuation
 //@     && keyOf(t, p, v).Description == keyOf(t, q, v).Description && (v != nil ? p.Value : p.Quantity) == 0.0 - (v != nil ? q.Value : q.Quantity)
+//
+// Commutation within one kind on one day (C05): the per-posting / per-price callbacks of the report
+// pipeline can be applied to two directives in either order with the same verdict and the same state.
+//@ commute valuate_postings_commute [C05]: Valuate$2 given p1 != p2
+//@ commute close_accumulate_commute [C05]: CloseAccounts$2
